@@ -70,6 +70,14 @@ MUTANTS = [
     ("C14", "R2", FIELD, '        "match" => "r#match",\n', "", "keyword row deleted"),
     ("C14", "R1", RESTR, 'writeln!(writer, "      {value:?}.to_string(),")?;', 'writeln!(writer, "      \\"{value}\\".to_string(),")?;', "enumeration unescaped"),
     ("C14", "R1", WRITER, "        for line in comment.split(['\\n', '\\r']) {", "        for line in comment.split('\\n') {", "CR in doc comment"),
+    # ---- added after the second round of independently seeded changes
+    ("C14", "R4", FIELD, "if unicode_ident::is_xid_continue(c) { c } else { '_' }", "if c.is_alphanumeric() || c == '_' { c } else { '_' }", "guard keeps every alphanumeric character (², Ⓐ)"),
+    ("C14", "R4", FIELD, '    if identifier == "_" {\n        identifier.push(\'_\');\n    }\n', "", "lone underscore returned for names without identifier characters"),
+    ("C14", "R4", FIELD, "c == '_' || unicode_ident::is_xid_start(c)", "!c.is_ascii_digit()", "only a leading ASCII digit is guarded"),
+    ("C14", "R1", FIELD, "let field_name = as_identifier(&to_snake_case(xml_name));", "let field_name = to_snake_case(&as_identifier(xml_name));", "case normaliser after the guard"),
+    ("C07", "R4", RESTR, "self.min_inclusive.as_ref().map(|v| v.trim().parse::<i32>())", "self.min_inclusive.as_ref().map(|v| v.trim().parse::<i64>())", "bound parsed wider than the helper field"),
+    ("C01", "R3", RESTR, "self.max_length.as_ref().map(|v| v.trim().parse::<usize>())", "self.max_length.as_ref().map(|v| v.trim().parse::<i128>())", "length parsed wider than the helper field"),
+    ("C05", "R5", SVC, '"    helpers::send_soap_request_using_client(&self.client, &self.location, credentials, req).await"', '"    helpers::send_soap_request_using_client(&self.client, &self.location, None, req).await"', "credentials not forwarded"),
 ]
 
 # (file, old, new, note) — behaviour-preserving; every check must stay silent
@@ -87,4 +95,6 @@ BENIGN = [
     (MAIN, "    let document = XmlReader::read_xml(&files).expect(\"can not read xml\");\n    let mut buffer = Vec::new();", "    let mut buffer = Vec::new();\n    let document = XmlReader::read_xml(&files).expect(\"can not read xml\");", "reorder two independent lets"),
     (BW, "    let body_field_name = as_field_name(&to_snake_case(body));", "    let body_member = as_field_name(&to_snake_case(body));\n    let body_field_name = body_member;", "introduce an intermediate binding"),
     (H, "            self.inner.check_restrictions(restrictions)\n        }\n    }\n\n    impl<T: YaDeserialize>", "            let inner = &self.inner;\n            inner.check_restrictions(restrictions)\n        }\n    }\n\n    impl<T: YaDeserialize>", "bind self.inner to a local before forwarding"),
+    (RESTR, '        if let Some(Ok(min_inclusive)) = self.min_inclusive.as_ref().map(|v| v.trim().parse::<i32>()) {\n            writeln!(writer, "   min_inclusive: Some({min_inclusive}), ")?;\n        }\n        if let Some(Ok(max_inclusive)) = self.max_inclusive.as_ref().map(|v| v.trim().parse::<i32>()) {\n            writeln!(writer, "   max_inclusive: Some({max_inclusive}), ")?;\n        }\n        if let Some(Ok(min_exclusive)) = self.min_exclusive.as_ref().map(|v| v.trim().parse::<i32>()) {\n            writeln!(writer, "   min_exclusive: Some({min_exclusive}), ")?;\n        }\n        if let Some(Ok(max_exclusive)) = self.max_exclusive.as_ref().map(|v| v.trim().parse::<i32>()) {\n            writeln!(writer, "   max_exclusive: Some({max_exclusive}), ")?;\n        }\n', '        let bounds = [\n            ("min_inclusive", &self.min_inclusive),\n            ("max_inclusive", &self.max_inclusive),\n            ("min_exclusive", &self.min_exclusive),\n            ("max_exclusive", &self.max_exclusive),\n        ];\n        for (facet, bound) in bounds {\n            if let Some(Ok(bound)) = bound.as_ref().map(|v| v.trim().parse::<i32>()) {\n                writeln!(writer, "   {facet}: Some({bound}), ")?;\n            }\n        }\n', "four facet blocks -> loop over an array literal (same types)"),
+    (SVC, '.await.map(|_| ())"', '.await.map(|_| ())"  ', "whitespace after a template literal"),
 ]
